@@ -6,6 +6,7 @@ terms (fpmode='fp') or reals (fpmode='real', sqrt as an auxiliary variable with 
 Every load/store/memcpy produces a bounds/null obligation. Anything the executor does not model ends
 the path as 'unsupported' (inconclusive), never as a pass.
 """
+import re
 import z3, time, sys, fractions
 from .irparse import *
 
@@ -1101,6 +1102,17 @@ class Exec:
     def intrinsic(s, st, fr, ins, key, args):
         real = s.fpmode == 'real'
         if key.startswith(('llvm.lifetime', 'llvm.dbg', 'llvm.assume', 'llvm.experimental.noalias', 'llvm.stacksave', 'llvm.stackrestore', 'llvm.prefetch')): return None
+        m_ = re.match(r'llvm\.(s|u)(add|sub|mul)\.with\.overflow\.i(\d+)$', key)
+        if m_:
+            # {iN result, i1 overflow}: computed in 2N bits and compared with the (sign/zero-)extended truncation
+            sg, opn, n = m_.group(1) == 's', m_.group(2), int(m_.group(3))
+            ext = (lambda v: z3.SignExt(n, v)) if sg else (lambda v: z3.ZeroExt(n, v))
+            x, y = ext(args[0]), ext(args[1])
+            wide = x + y if opn == 'add' else (x - y if opn == 'sub' else x * y)
+            res = z3.Extract(n - 1, 0, wide)
+            ovf = z3.simplify(ext(res) != wide)
+            if ins.dst is not None: fr.regs[ins.dst] = [z3.simplify(res), ovf]
+            return None
         if key.startswith(('llvm.memcpy', 'llvm.memmove', 'llvm.memset')):
             what = 'memset' if key.startswith('llvm.memset') else 'memcpy'
             symlen = not z3.is_bv_value(z3.simplify(args[2]))
